@@ -30,7 +30,7 @@ def field(line, key):
 
 class Prop:
     pid = None
-    timeout = 1500
+    timeout = 900
 
     def streams(self, tier, rng):
         raise NotImplementedError
